@@ -389,7 +389,7 @@
 ;; Advance epsilons together - if the State is newly added to the
 ;; group and is an epsilon state, recursively add the transition.
 
-(define (posse-advance! new seen state sr str i start end)
+(define (posse-advance! new seen state sr str i start end search?)
   (let advance! ((sr sr))
     (let ((st (searcher-state sr)))
       ;; Update match data.
@@ -414,7 +414,10 @@
       (cond
        ((state-accept? st)
         (cond
-         ((searcher>=? sr (regexp-state-accept state))
+         ;; When matching the whole string only an accept at the end
+         ;; counts; a shorter (non-greedy) accept must not shadow it.
+         ((and (or search? (string-cursor>=? i end))
+               (searcher>=? sr (regexp-state-accept state)))
           (regexp-state-accept-set! state sr)
           (regexp-state-string-set! state str))))
        ((posse-ref seen sr)
@@ -459,7 +462,7 @@
       (cond
        ((or search? (and init? (string-cursor=? i start)))
         (posse-advance! searchers1 epsilons state (make-start-searcher rx str)
-                        str i start end)
+                        str i start end search?)
         (posse-clear! epsilons)))
       (cond
        ((or (string-cursor>=? i end)
@@ -490,7 +493,7 @@
                                start end (searcher-matches sr))
                (searcher-state-set! sr (state-next1 (searcher-state sr)))
                ;; Epsilons are considered at the next position.
-               (posse-advance! searchers2 epsilons state sr str i2 start end)
+               (posse-advance! searchers2 epsilons state sr str i2 start end search?)
                (posse-clear! epsilons))))
            searchers1)
           (posse-clear! searchers1)
